@@ -161,4 +161,49 @@ def GoodOutcome : Outcome → Prop
   | .returned c => Good c
   | .continued _ => False
 
+/-! ### the JSON export
+
+    `HandleJSON` takes no lock itself; `json.MarshalIndent(e.store)` calls `(*Store).MarshalJSON`,
+    which read-locks the store and every metric, encodes, and releases them in deferred calls.
+    Its statements are regenerated from the source as `JTok`s. -/
+
+inductive JTok
+  | rlockStore          -- s.searchMu.RLock()
+  | deferRUnlockStore   -- defer s.searchMu.RUnlock()
+  | decl                -- ms := make(...)
+  | collect             -- for _, ml := range s.Metrics { ms = append(ms, ml...) }
+  | rlockAll            -- for _, m := range ms { m.RLock() }
+  | deferRUnlockAll     -- defer func() { for _, m := range ms { m.RUnlock() } }()
+  | retMarshal          -- return json.Marshal(ms)   (whether it succeeds or not)
+  | unknown
+deriving Repr, DecidableEq
+
+/-- readers on the store's lock and on every metric's lock (the same count for each metric) -/
+structure JSt where
+  store : Int := 0
+  metrics : Int := 0
+  collected : Bool := false     -- `ms` holds every metric of the store
+deriving Repr, DecidableEq
+
+/-- a deferred call -/
+def JSt.undo (s : JSt) : JTok → JSt
+  | .deferRUnlockStore => { s with store := s.store - 1 }
+  | .deferRUnlockAll => { s with metrics := s.metrics - 1 }
+  | _ => s
+
+/-- run to the `return`, then the deferred calls, last first.  `none`: a statement the model does
+    not know, falling off the end, or metric locks taken before `ms` is complete.  The encoder's
+    verdict (a value JSON cannot represent, for one) does not appear: the function returns its
+    result unexamined, so every attempt takes this one path. -/
+def runJ : List JTok → JSt → List JTok → Option JSt
+  | [], _, _ => none
+  | .retMarshal :: _, s, d => some (d.foldl JSt.undo s)
+  | .rlockStore :: r, s, d => runJ r { s with store := s.store + 1 } d
+  | .deferRUnlockStore :: r, s, d => runJ r s (.deferRUnlockStore :: d)
+  | .decl :: r, s, d => runJ r s d
+  | .collect :: r, s, d => runJ r { s with collected := true } d
+  | .rlockAll :: r, s, d => if s.collected then runJ r { s with metrics := s.metrics + 1 } d else none
+  | .deferRUnlockAll :: r, s, d => runJ r s (.deferRUnlockAll :: d)
+  | .unknown :: _, _, _ => none
+
 end MtailVerif.ExportLocks
